@@ -235,9 +235,9 @@ def run_shard(ctx):
         if fmt == "images":
             force = ["many-per-cell", "shared-object", "near-equal-paths", None][(i // 7) % 4]
         if fmt == "composeinfo":
-            force = ["depth-3", "paths-full", None][(i // 7) % 3]
+            force = ["depth-3", "paths-full", "many-variants", None][(i // 7) % 4]
         if fmt == "treeinfo":
-            force = ["several-platforms", "mixed-case-options", "depth-3", "checksums", None][(i // 7) % 5]
+            force = ["several-platforms", "mixed-case-options", "depth-3", "checksums", "many-variants", None][(i // 7) % 6]
         D = formats.gen(fmt, rng, force, hostile=(i % 2 == 0))
         case = {"fmt": fmt, "content_index": i, "D": D}
         dset = []
